@@ -543,7 +543,8 @@ Lemma oracle_model c hist pifs allow egress :
          (propagate pifs allow (run c hist) egress) = true.
 Proof.
   unfold oracle. destruct (in_scope c hist) eqn:S; [|reflexivity]. cbn [negb].
-  unfold in_scope in S. apply andb_true_iff in S as [S S3]. apply andb_true_iff in S as [Hkc Hbd].
+  unfold in_scope in S. apply andb_true_iff in S as [S S4]. apply andb_true_iff in S as [S S3].
+  apply andb_true_iff in S as [Hkc Hbd].
   assert (Hne : forall b, In b hist -> b_hops b <> []).
   { intros b Hb E. rewrite forallb_forall in S3. specialize (S3 b Hb). rewrite E in S3. discriminate. }
   destruct (store_inv_run c hist) as [I1 I2]. set (st := run c hist) in *.
@@ -579,4 +580,112 @@ Proof.
   apply existsb_exists. exists (to_dump (mk_rec b (usage (pols c) (hops_of b)))).
   split; [apply dump_of_in; eexists; split; [exact Hr|reflexivity]|].
   unfold to_dump. cbn [mk_rec r_kid r_usage]. now rewrite N.eqb_refl, Hbit.
+Qed.
+
+(** ---------- audit follow-up: loops through the local AS *)
+
+(** outside the defect class nothing handed out loops on the wire *)
+Lemma wire_ok_except_known c hist pifs allow egress :
+  in_scope c hist = true -> known c hist pifs allow egress = false ->
+  forallb (wire_ok c hist pifs allow) (propagate pifs allow (run c hist) egress) = true.
+Proof.
+  intros S K. unfold in_scope in S. apply andb_true_iff in S as [S _]. apply andb_true_iff in S as [S _].
+  apply andb_true_iff in S as [Hkc _].
+  destruct (store_inv_run c hist) as [I1 _].
+  apply forallb_forall. intros p Hp. unfold propagate in Hp. apply in_map_iff in Hp as (e & <- & He).
+  unfold wire_ok. cbn [fst snd]. destruct (lookup pifs e) as [[lt nb]|] eqn:L; [|reflexivity].
+  apply forallb_forall. intros kid Hk. rewrite sortN_in in Hk. apply in_map_iff in Hk as (r & <- & Hr).
+  apply for_interface_in in Hr as (Hr & _ & _ & Hign).
+  destruct (I1 r Hr) as (b & Hb & Er & _). rewrite Er in *. cbn [mk_rec r_kid r_key] in *.
+  rewrite (hops_of_kid_in hist b Hkc Hb). change (key_ias (b_hops b)) with (hops_of b) in Hign.
+  unfold known in K.
+  destruct (filter_loops (on_wire c (hops_of b) nb) allow) eqn:W; [|reflexivity]. exfalso.
+  assert (X : existsb (fun b0 => existsb (fun e0 =>
+              match lookup pifs e0 with
+              | Some (_, nb0) => filter_loops (on_wire c (hops_of b0) nb0) allow && negb (should_ignore allow (hops_of b0) nb0)
+              | None => false end) egress) hist = true).
+  { apply existsb_exists. exists b. split; [exact Hb|]. apply existsb_exists. exists e. split; [exact He|].
+    rewrite L, W, Hign. reflexivity. }
+  congruence.
+Qed.
+
+Lemma oracle_full_except_known c hist pifs allow egress :
+  known c hist pifs allow egress = false ->
+  oracle_full c hist pifs allow (oks c [] hist) (dump_of (run c hist))
+              (propagate pifs allow (run c hist) egress) = true.
+Proof.
+  intros K. unfold oracle_full. rewrite oracle_model. cbn [andb].
+  destruct (in_scope c hist) eqn:S; [|reflexivity]. cbn [negb orb]. now apply wire_ok_except_known.
+Qed.
+
+(** inserting a hop whose ISD equals that of the hop before it, or that of the
+    single hop after it, does not change the verdict of [filterIsdLoop] *)
+Lemma isd_go_insert_after p : forall seen last h x q,
+  isd x = isd h ->
+  isd_loop_go seen last ((p ++ [h]) ++ x :: q) = isd_loop_go seen last ((p ++ [h]) ++ q).
+Proof.
+  induction p as [|y p IH]; intros seen last h x q E; cbn [app isd_loop_go].
+  - destruct (last =? isd h) eqn:A.
+    + apply N.eqb_eq in A. rewrite E, <- A, N.eqb_refl. reflexivity.
+    + destruct (memN (isd h) seen); [reflexivity|]. now rewrite E, N.eqb_refl.
+  - destruct (last =? isd y); [apply (IH seen last h x q E)|].
+    destruct (memN (isd y) seen); [reflexivity|]. apply (IH _ _ h x q E).
+Qed.
+
+Lemma isd_go_insert_before p : forall seen last x y,
+  isd x = isd y ->
+  isd_loop_go seen last (p ++ [x; y]) = isd_loop_go seen last (p ++ [y]).
+Proof.
+  induction p as [|z p IH]; intros seen last x y E; cbn [app isd_loop_go].
+  - rewrite E. destruct (last =? isd y) eqn:A; [reflexivity|].
+    destruct (memN (isd y) seen); [reflexivity|]. now rewrite N.eqb_refl.
+  - destruct (last =? isd z); [apply (IH seen last x y E)|].
+    destruct (memN (isd z) seen); [reflexivity|]. apply (IH _ _ x y E).
+Qed.
+
+(** declarative statement outside the defect class *)
+Lemma no_wire_loop_except_known c allow hops nb :
+  valid_ias (on_wire c hops nb) ->
+  should_ignore allow hops nb = false ->
+  ~ In (local c) hops -> local c <> nb ->
+  (allow = false ->
+     (exists p h, hops = p ++ [h] /\ isd (local c) = isd h) \/ (ia_zero nb = false /\ isd (local c) = isd nb)) ->
+  NoDup (on_wire c hops nb) /\ (allow = false -> ~ isd_loop (on_wire c hops nb)).
+Proof.
+  intros Hv Hign Hnl Hnb Hisd.
+  assert (Hve : valid_ias (extended hops nb)).
+  { unfold valid_ias, on_wire, extended in *. rewrite Forall_forall in *. intros a Ha. apply Hv.
+    destruct (ia_zero nb); [apply in_or_app; now left|].
+    apply in_app_or in Ha as [Ha|Ha]; apply in_or_app; [now left|right]. apply in_or_app. now right. }
+  destruct (no_loop_sent allow hops nb Hve Hign) as [Hnd Hil].
+  set (tail := if ia_zero nb then [] else [nb]).
+  assert (Ew : on_wire c hops nb = hops ++ local c :: tail) by reflexivity.
+  assert (Ee : extended hops nb = hops ++ tail).
+  { unfold extended, tail. destruct (ia_zero nb); [now rewrite app_nil_r|reflexivity]. }
+  rewrite Ee in Hnd, Hil, Hve. rewrite Ew in *. split.
+  - apply (NoDup_Add (Add_app (local c) hops tail)). split; [exact Hnd|].
+    intros Hin. apply in_app_or in Hin as [Hin|Hin]; [contradiction|].
+    unfold tail in Hin. destruct (ia_zero nb); [destruct Hin|]. destruct Hin as [Hin|[]]. congruence.
+  - intros Ha Hl. apply (filter_isd_loop_spec _ Hv) in Hl. apply Hl. clear Hl.
+    assert (Z : filter_isd_loop (hops ++ tail) = 0).
+    { destruct (filter_isd_loop (hops ++ tail) =? 0) eqn:Z0; [now apply N.eqb_eq|].
+      apply N.eqb_neq in Z0. exfalso. apply (Hil Ha). now apply (filter_isd_loop_spec _ Hve). }
+    rewrite <- Z. unfold filter_isd_loop.
+    destruct (Hisd Ha) as [(p & h & -> & E)|[Hz E]].
+    + apply isd_go_insert_after. exact E.
+    + unfold tail. rewrite Hz. apply (isd_go_insert_before hops [] 0 (local c) nb E).
+Qed.
+
+Lemma assoc_kid_table hist kid : assoc_kid (kid_table hist) kid = hops_of_kid hist kid.
+Proof.
+  unfold hops_of_kid, kid_table. induction hist as [|b t IH]; [reflexivity|].
+  cbn [map assoc_kid find]. destruct (b_kid b =? kid); [reflexivity|exact IH].
+Qed.
+
+Lemma wire_ok_t_table c hist pifs allow p :
+  wire_ok_t (local c) (kid_table hist) pifs allow p = wire_ok c hist pifs allow p.
+Proof.
+  unfold wire_ok_t, wire_ok. destruct (lookup pifs (fst p)) as [[lt nb]|]; [|reflexivity].
+  destruct (snd p) as [kids|]; [|reflexivity]. induction kids as [|k t IH]; [reflexivity|].
+  cbn [forallb]. rewrite IH, assoc_kid_table. reflexivity.
 Qed.
